@@ -255,6 +255,22 @@ fn c_concrete_and_probes(s: u8, d1: u8, d2: u8) -> CheckResult {
             ensure!(o == swant, format!("probed_impl/ref_structured/{}", first_diff(&o, &swant)), "&StructuredShortMessage implements ShortMessage but observes as {:?} instead of {:?}", o, swant);
         }
     }
+    // an inherent, *safe* `from_bytes_unchecked` (shadowing the unsafe trait function) would let safe
+    // code create a message from any status byte (probe: nothing is checked unless it exists)
+    {
+        #[allow(unused_imports)]
+        use crate::p_ints::{PSafeFnN, PSafeFnY, ProbeFn};
+        let r: Option<Result<RawShortMessage, String>> = (&ProbeFn(RawShortMessage::from_bytes_unchecked)).call_safely(bytes);
+        if let Some(Ok(m)) = r {
+            let sb = guarded(|| m.status_byte());
+            ensure!(s >= 0x80 || sb.is_err(), "from_bytes_validity/Raw/safe_from_bytes_unchecked", "RawShortMessage::from_bytes_unchecked is callable without `unsafe` and built a message from status byte {:#04x}", s);
+        }
+        let r: Option<Result<StructuredShortMessage, String>> = (&ProbeFn(StructuredShortMessage::from_bytes_unchecked)).call_safely(bytes);
+        if let Some(Ok(m)) = r {
+            let sb = guarded(|| m.status_byte());
+            ensure!(s >= 0x80 || sb.is_err(), "from_bytes_validity/Structured/safe_from_bytes_unchecked", "StructuredShortMessage::from_bytes_unchecked is callable without `unsafe` and built a message from status byte {:#04x}", s);
+        }
+    }
     // other types that might implement the factory trait
     macro_rules! probe_factory {
         ($t:ty, $label:expr) => {
@@ -271,6 +287,43 @@ fn c_concrete_and_probes(s: u8, d1: u8, d2: u8) -> CheckResult {
     probe_factory!([u8; 3], "array_u8_3");
     probe_factory!(u32, "u32");
     Ok(s >= 0x80)
+}
+
+// `Default` for the message types does not exist today. If it appears (a derive on the byte tuple
+// would yield status byte 0), the default value is a message created through the safe API and must
+// be one that from_bytes could have built.
+trait PDefaultY<T> {
+    fn default_obs(&self) -> Option<Result<Obs, String>>;
+}
+impl<T: Default + ShortMessage> PDefaultY<T> for crate::impls::Probe<T> {
+    fn default_obs(&self) -> Option<Result<Obs, String>> {
+        Some(guarded(|| observe(&T::default())))
+    }
+}
+trait PDefaultN<T> {
+    fn default_obs(&self) -> Option<Result<Obs, String>> {
+        None
+    }
+}
+impl<T> PDefaultN<T> for &crate::impls::Probe<T> {}
+
+fn c_default_values(which: u64) -> CheckResult {
+    let (name, r) = match which {
+        0 => ("RawShortMessage", (&crate::impls::probe::<RawShortMessage>()).default_obs()),
+        _ => ("StructuredShortMessage", (&crate::impls::probe::<StructuredShortMessage>()).default_obs()),
+    };
+    match r {
+        None => Ok(false),
+        Some(Err(p)) => fail(format!("default_value/{}/accessor_panics", name), format!("{}::default() exists (safe API) but its accessors panic: {}", name, p)),
+        Some(Ok(o)) => {
+            let (s, d1, d2) = o.bytes;
+            ensure!(s >= 0x80 && d1 < 128 && d2 < 128, format!("default_value/{}/invalid_bytes", name), "{}::default() has bytes ({:#04x},{},{}): a message from_bytes would have rejected", name, s, d1, d2);
+            let want = if which == 0 { (s, d1, d2) } else { ref_canon(s, d1, d2) };
+            ensure!((s, d1, d2) == want, format!("default_value/{}/not_canonical", name), "{}::default() has bytes {:?}", name, (s, d1, d2));
+            in_range_obs(&o)?;
+            Ok(true)
+        }
+    }
 }
 
 // ---------------------------------------------------------------------------------------------
@@ -586,6 +639,15 @@ pub fn run_c01(ctx: &Ctx) -> Report {
         subs.push(sub);
     }
     subs.push(fresh_thread_pass(ctx, "fresh_threads_scattered_order", false, ctx.pick(32, 512, 4096), 200, c01_triple));
+    {
+        let mut sub = Sub::new("probed_default_values", "Default::default() of RawShortMessage / StructuredShortMessage, if such an impl exists (none does today): its bytes must be ones from_bytes accepts and no accessor may panic", "non-trivial = the impl exists", true);
+        sub.supplementary = true;
+        for which in 0..2u64 {
+            sub.eval(which as u128, || json!({"default_of": which}), || c_default_values(which));
+        }
+        sub.samples.push(json!({"default_of": 0, "note": "nothing to check unless the impl exists"}));
+        subs.push(sub);
+    }
     Report {
         subs,
         rule: "exhaustive enumeration of the stated finite domains; a case is non-trivial when it carries a non-zero data field (the suite never feeds those through the structured form)".into(),
@@ -603,6 +665,7 @@ pub fn replay_c01(sub: &str, case: &Value) -> Option<CheckResult> {
         "quarter_u7" => json_u8(&case["byte"]).filter(|b| *b < 128).map(c01_quarter_u7),
         "quarter_frames" => json_u64(&case["index"]).filter(|i| *i < 120).map(c01_quarter_frame),
         "type_bytes" => json_u8(&case["byte"]).map(c01_type_byte),
+        "probed_default_values" => json_u64(&case["default_of"]).map(c_default_values),
         _ => None,
     }
 }
